@@ -358,6 +358,9 @@ def errno_grid():
 
 
 def run():
+    import gc
+    gc.collect()
+    gc.freeze()          # forked workers then do not copy the parent heap page by page
     ck = core.Check("C35", "fault_enumeration", META["technique"])
     qs = queues()
     items = []
